@@ -515,6 +515,14 @@ example : Spec.withPartiesOk exEnv "WriteScope" exOwners exOwners [2] ["A"] = fa
 example : Spec.withPartiesOk exEnv "WriteRecord" exOwners exOwners [2] ["A"] = true := by decide
 example : (validateSignersWithParties exEnv "WriteRecord" exOwners exOwners [2] ["A"]).toBool = true := by decide
 example : (validateSignersWithParties exEnv "WriteScope" exOwners exOwners [2] ["A"]).toBool = false := by decide
+-- the hypotheses of `all_sign_directly_accepts` are met by: A and C sign, one SERVICER required
+example : ∀ p ∈ exOwners, p.optional = false → Spec.signsDirectly ["A", "C"] p.address = true := by decide
+example : ∀ r ∈ [2], [2].count r ≤
+    ((Spec.distinctParties exOwners).filter fun k => k.2 == r && Spec.signsDirectly ["A", "C"] k.1).length := by decide
+example : Spec.provenanceRoleOk exEnv exOwners = true := by decide
+-- `more_signers_never_hurt` / `signer_order_irrelevant`: ["A","C"] ⊆ ["C","B","A"], both without contracts
+example : ∀ x ∈ ["A", "C"], x ∈ ["C", "B", "A"] := by decide
+example : (validateSignersWithParties exEnv "WriteSession" exOwners exOwners [2] ["C", "B", "A"]).toBool = true := by decide
 -- greedy: two SERVICER entries need both B and C
 example : Spec.withPartiesOk exEnv "WriteSession" exOwners exOwners [2, 2] ["A", "C"] = true := by decide
 example : Spec.withPartiesOk exEnv "DeleteRecord" exOwners exOwners [2, 2] ["A", "C"] = false := by decide
